@@ -198,6 +198,8 @@ pub struct Expected {
     /// the world has a directory cycle through links or a looping link below a reference directory: the statement
     /// is silent; both "reported as an error" and "compiled with duplicates" are accepted
     pub loops: bool,
+    /// a link below a reference directory leads back to a directory the walk is inside of (nothing is due for it)
+    pub dir_cycles: bool,
     /// identities (module names) in the order they must appear
     pub sources: Vec<String>,
     /// identities of explicitly listed reference files, in order (after de-duplication)
@@ -236,7 +238,9 @@ fn walk(fs: &MFs, cwd: &str, spelled: &str, stack: &mut Vec<String>, out: &mut V
     // `spelled` is known to denote a directory
     let Ok((canon, node)) = fs.stat(cwd, spelled) else { return };
     if stack.contains(&canon) {
-        exp.loops = true;
+        // a link back to a directory the walk is inside of: nothing new below it (and no error - all of it is
+        // readable; the pinned tree followed such links until ELOOP: fixed)
+        exp.dir_cycles = true;
         return;
     }
     if node.mode & 0o400 == 0 {
@@ -714,7 +718,9 @@ pub fn generate(rng: &mut Rng) -> Scenario {
         sources.insert(at, rng.pick(&sp).clone());
     }
     if rng.chance(1, 8) {
-        let bad = match rng.below(4) {
+        let bad = match rng.below(5) {
+            // something that exists but is neither a file nor a directory
+            4 => "/dev/null".to_owned(),
             0 => "missing.slice".to_owned(),
             1 => {
                 let d = rng.pick(&dirs).clone();
@@ -765,6 +771,10 @@ pub fn generate(rng: &mut Rng) -> Scenario {
     if !references.is_empty() && rng.chance(1, 4) {
         let again = rng.pick(&references).clone();
         references.push(again);
+    }
+    if rng.chance(1, 30) {
+        let at = rng.usize_below(references.len() + 1);
+        references.insert(at, "/dev/null".to_owned());
     }
 
     let mut sim = Sim {
@@ -929,7 +939,10 @@ pub fn judge(s: &Scenario, r: &RunResult) -> (Vec<Violation>, Vec<&'static str>)
     let errors: Vec<&Diag> = diags.iter().filter(|d| d.error).collect();
     let spawns = r.trace.iter().filter(|e| matches!(e.kind, Ev::Spawn { .. })).count();
     if exp.loops {
-        probes.push("directory cycle or looping link below a reference directory");
+        probes.push("looping link below a reference directory");
+    }
+    if exp.dir_cycles {
+        probes.push("link back to a directory the walk is inside of");
     }
     if !exp.duplicates.is_empty() {
         probes.push("same file reached twice within one list");
@@ -1133,7 +1146,8 @@ impl Property for C17 {
     fn expected_probes(&self) -> Vec<&'static str> {
         vec![
             "I/O error expected",
-            "directory cycle or looping link below a reference directory",
+            "looping link below a reference directory",
+            "link back to a directory the walk is inside of",
             "libc fault (errno) delivered",
             "same file reached twice within one list",
             "short read / EINTR on an input file",
